@@ -131,6 +131,7 @@ class Loop:
         self.legit = Legit(self)
         self.current = None
         self.failed_sends = 0
+        self.netlink_refused = []
         self.rnd = None
 
     # ---- scripted environment
@@ -142,6 +143,19 @@ class Loop:
         self.sent.append((data, dst))
         if dst[0] == wd.addr_of('B'):
             self.legit.from_daemon(data)
+
+    def arm_netlink_failure(self, match, err):
+        """The kernel refuses the next netlink request of the daemon whose kind is in `match` (once)."""
+        k = self.w.kernel['A']
+        loop = self
+
+        def refuse(idx, req):
+            if req['kind'] in match:
+                k.refuse = None
+                loop.netlink_refused.append(req['kind'])
+                return err
+            return 0
+        k.refuse = refuse
 
     def select(self, rlist, wlist, xlist, timeout=None):
         self.max_lines = max(self.max_lines, self.lines)
@@ -180,6 +194,9 @@ class Loop:
                 return [self.tcp], [], []
             if t == 'fail_send':
                 self.fail_next_send = ev['exc']
+                continue
+            if t == 'fail_netlink':
+                self.arm_netlink_failure(ev['match'], ev['errno'])
                 continue
             if t == 'tick':
                 self.w.now += ev['dt']
@@ -222,6 +239,7 @@ class Legit:
         self.loop = loop
         self.queue = []          # datagrams B wants the daemon to receive
         self.stage = 0
+        self.completed = False
         self.last = None
         self.answered = True
 
@@ -250,6 +268,14 @@ class Legit:
                 if not sas:
                     return None
                 self.queue.append(bytes(w.expire('B', bytes(sas[0].child_sas[0].inbound_spi), False)))
+            elif self.stage == 2:
+                # the session is complete (IKE_SA, CHILD_SA, one rekey): remember that, then B closes the IKE_SA (the daemon tears it down with its CHILD_SA)
+                sas = [s for s in w.sas('B') if s.state == IkeSa.State.ESTABLISHED]
+                if not sas or not any(s.state == IkeSa.State.ESTABLISHED and s.child_sas for s in w.sas('A')):
+                    return None
+                self.completed = True
+                sas[0].delete_ike_sa_at = w.now - 1
+                self.queue.append(bytes(w.timer('B', sas[0], 'check_rekey_ike_sa_timer')))
             else:
                 return None
             self.stage += 1
@@ -361,6 +387,10 @@ def hostile_event(kind, loop, rnd, prepared=False):
         return {'type': 'fail_send', 'name': kind, 'exc': _socket.gaierror(-2, 'Name or service not known')}
     if kind == 'send_oserror':
         return {'type': 'fail_send', 'name': kind, 'exc': OSError(101, 'Network is unreachable')}
+    if kind == 'netlink_fail_delsa':
+        return {'type': 'fail_netlink', 'name': kind, 'match': ('DELSA',), 'errno': rnd.choice((1, 22, 105))}      # EPERM, EINVAL, ENOBUFS
+    if kind == 'netlink_fail_newsa':
+        return {'type': 'fail_netlink', 'name': kind, 'match': ('NEWSA',), 'errno': rnd.choice((1, 17, 22))}       # EPERM, EEXIST, EINVAL
     if kind == 'tick':
         return {'type': 'tick', 'name': kind, 'dt': 1.0}
     raise common.MachineryError('unknown hostile kind ' + kind)
@@ -368,7 +398,7 @@ def hostile_event(kind, loop, rnd, prepared=False):
 
 KINDS = ('short', 'garbage', 'unconfigured_src', 'init_existing_spi', 'unknown_exchange', 'unknown_spi', 'binary_vendor', 'auth_malformed', 'bad_checksum',
          'loop_payload', 'delete_many', 'acquire_unconfigured', 'acquire_unknown_index', 'expire_unknown_spi', 'netlink_truncated', 'netlink_unknown_type',
-         'control', 'send_gaierror', 'send_oserror', 'tick', 'wrong_spi_sealed', 'wrong_spi_clear', 'acquire_silent_peer', 'half_open_wrong_spi')
+         'control', 'send_gaierror', 'send_oserror', 'tick', 'wrong_spi_sealed', 'wrong_spi_clear', 'acquire_silent_peer', 'half_open_wrong_spi', 'netlink_fail_delsa', 'netlink_fail_newsa')
 
 
 class Lazy(dict):
@@ -383,7 +413,7 @@ def run_behaviour(kinds_sequence, seed, rnd):
         script.append({'type': 'legit'} if k == 'legit' else {'type': 'lazy', 'kind': k})
     loop.rnd = rnd
     # closing: retransmissions of whatever the legitimate peer still waits for, then a status query
-    tail = [{'type': 'legit'}] * 3 + [{'type': 'control', 'name': 'final-status'}]
+    tail = [{'type': 'legit'}] * 4 + [{'type': 'control', 'name': 'final-status'}]
     try:
         ex = loop.run(script + tail)
         return loop, ex
